@@ -113,7 +113,67 @@ def make_fallback(case):
     return run
 
 
+OFFSET_PLANS = [
+    # (type name, bits, explicit offset or None)
+    [("uint8", None, 0), ("uint32", None, 6), ("uint16", None, None), ("uint8", None, 15)],
+    [("uint16", None, 2), ("uint8", None, None), ("uint8", None, None), ("uint32", None, 8)],
+    [("uint8", None, None), ("uint16", 4, 4), ("uint16", 12, None), ("uint8", None, None)],
+    [("uint32", None, 4), ("int24", None, None), ("char", None, 12), ("uint64", None, None)],
+    [("uint8", None, 1), ("uint16", None, 0), ("uint8", None, 5)],          # overlapping / going backwards
+]
+
+
+def make_offsets(case):
+    """Members placed with add_field(offset=...): the generated reader follows the recorded offsets as the interpreted one does."""
+    cfg, plan = case["cfg"], case["plan"]
+
+    def build(compiled):
+        from dissect.cstruct import cstruct, compiler
+        from dissect.cstruct.types.structure import Field
+        cs = cstruct(endian=cfg["endian"])
+        fields = [Field(f"f{i}", cs.resolve(tn), bits=bits, offset=off) for i, (tn, bits, off) in enumerate(plan)]
+        st = cs._make_struct("test", fields, align=cfg["align"])
+        if compiled:
+            st = compiler.compile(st)
+        return st
+
+    def run(ctx):
+        try:
+            I = build(False)
+        except Exception as e:  # noqa: BLE001
+            ctx.observe("outcome", "rejected:" + H.classify(e))
+            return
+        try:
+            C = build(True)
+        except Exception as e:  # noqa: BLE001
+            ctx.check("builds with the generator as it does without", False, H.classify(e))
+            return
+        ctx.check("same layout", _layout_sig(I) == _layout_sig(C), f"{_layout_sig(I)} vs {_layout_sig(C)}")
+        ctx.observe("compiled", bool(C.__compiled__))
+        data = ctx.bytes("b", 26)
+        q = ctx.int("q", 0, 1 << 16)
+        out = []
+        for cls in (I, C):
+            s = ctx.based_stream(data, q * 16)
+            try:
+                out.append(("value", cls.read(s), s.tell()))
+            except Exception as e:  # noqa: BLE001
+                out.append(("error", H.classify(e), None))
+        ctx.check("both readers return or both raise", out[0][0] == out[1][0], f"{out[0][0]}:{out[0][1] if out[0][0] == 'error' else ''} vs {out[1][0]}:{out[1][1] if out[1][0] == 'error' else ''}")
+        if out[0][0] == out[1][0] == "value":
+            vi, vc = out[0][1], out[1][1]
+            ctx.check("equal field values", R.And(*[getattr(vi, f"f{i}") == getattr(vc, f"f{i}") if plan[i][0] != "char" else
+                                                    R.bytes_eq(getattr(vi, f"f{i}"), getattr(vc, f"f{i}")) for i in range(len(plan))]))
+            ctx.check("same position afterwards", out[0][2] == out[1][2])
+            ctx.check("equal recorded sizes", dict(vi._sizes) == dict(vc._sizes), f"{vi._sizes} vs {vc._sizes}")
+    return run
+
+
 def cases(tier, seed):
+    for i, plan in enumerate(OFFSET_PLANS):
+        for e in "<>":
+            for a in (False, True):
+                yield {"label": f"explicit-offsets {i}", "cfg": {"endian": e, "align": a}, "plan": [list(x) for x in plan], "make": "make_offsets"}
     for e in "<>":
         for a in (False, True):
             for text in ("struct test { uint16 a; odd o; uint8 t; };", "struct test { uint16 a; uint8 b:3; odd o; };"):
